@@ -593,6 +593,11 @@ func (c *Client) send(dest *net.UDPAddr, msg *dhcpv4.DHCPv4) (resp <-chan *dhcpv
 
 	if _, err := c.conn.WriteTo(msg.ToBytes(), dest); err != nil {
 		cancel()
+		if c.isClosed() {
+			// Close got in between two tries: report it the way a call
+			// that was waiting when Close ran does.
+			return nil, nil, ErrNoResponse
+		}
 		return nil, nil, fmt.Errorf("error writing packet to connection: %w", err)
 	}
 	return ch, cancel, nil
